@@ -75,3 +75,7 @@ C('C10', 'differential oracle: gcc probe (sizeof, signedness, every enumerator) 
 C('C31', 'differential oracle: decorated vs undecorated cdef through the real parser (declarations, constants, emit_c_code/emit_python_code bytes, in-line facts); icontract postcondition on cparser._preprocess',
   'Exploration: generated cdefs (incl. API-mode constructs) decorated at token boundaries with comments of both kinds, white-space runs (incl. FF/VT/CR/CRLF), backslash-newline inside #define lines, line directives with hostile file names; failing decorations are reduced to the culprit insertion(s) that define the mechanism key.',
   '13 exotic insertion classes are recorded findings (all raise CDefError; no silent change of meaning was observed).')
+
+C('C09', 'differential oracle: gcc evaluates the same expression text in context; a C-typing evaluator only filters out C-undefined expressions and classifies disagreements; icontract on _c_div/_parse_constant',
+  'Exploration: depth-bounded expression trees over decimal/octal/hex literals with every u/l suffix, character constants with escapes, unary +/- and + - * / % << >> & | ^, placed as array lengths, bitfield widths, enumerators, #define and static const values; values compared in in-line, emitted ABI module and compiled API module.',
+  'Evaluator vs gcc disagreement makes the run inconclusive (0 observed); initialisers stay in the declared type\'s range. Known finding: unsigned-typed operands.')
